@@ -315,11 +315,12 @@ class Folder(FileSystemItemABC):
             self.sys_log.error(f"Unable to restore file {file_name}. File does not exist.")
             return False
 
+        was_deleted = file.deleted
         file.restore()
         self.files[file.uuid] = file
 
-        if file.deleted:
-            self.deleted_files.pop(file.uuid)
+        if was_deleted:
+            self.deleted_files.pop(file.uuid, None)
         return True
 
     def quarantine(self):
